@@ -212,6 +212,35 @@ def ones_like(a, dtype=None, **kw):
     return ones(_shape_of(a), dtype=dtype)
 
 
+@override("matmul", "dot")
+def matmul(a, b, out=None, **kw):
+    A, B = _A(a), _A(b)
+    if A.dtype != object and B.dtype != object:
+        return deep_wrap(_np.matmul(A.view(_np.ndarray), B.view(_np.ndarray)))
+    A, B = A.view(_np.ndarray), B.view(_np.ndarray)
+    a1, b1 = A.ndim == 1, B.ndim == 1
+    if a1:
+        A = A.reshape(1, -1)
+    if b1:
+        B = B.reshape(-1, 1)
+    if A.ndim != 2 or B.ndim != 2 or A.shape[1] != B.shape[0]:
+        raise ValueError(f"matmul: shapes {A.shape} and {B.shape} not aligned")
+    out_ = _np.empty((A.shape[0], B.shape[1]), dtype=object)
+    for i in _np.arange(A.shape[0]):
+        for j in _np.arange(B.shape[1]):
+            acc = 0
+            for k in _np.arange(A.shape[1]):
+                acc = acc + A[i, k] * B[k, j]
+            out_[i, j] = acc
+    if a1 and b1:
+        return out_[0, 0]
+    if a1:
+        out_ = out_[0, :]
+    elif b1:
+        out_ = out_[:, 0]
+    return out_.view(SymArray)
+
+
 @override("clip")
 def clip(a, a_min=None, a_max=None, out=None, **kw):
     r = a
@@ -484,6 +513,17 @@ def quantile(a, q, axis=None, **kw):
     qs = q
     if a.dtype != object and not is_sym(q):
         return deep_wrap(_np.quantile(a.view(_np.ndarray), deep_strip(q), axis=axis, **kw))
+    if axis is not None and a.ndim == 2 and axis in (0, 1, -1, -2):
+        # quantile along one axis of a matrix: one 1-d quantile per row / column
+        m = a.view(_np.ndarray)
+        lines = [m[:, j] for j in _np.arange(m.shape[1])] if axis in (0, -2) else [m[i, :] for i in _np.arange(m.shape[0])]
+        res = [quantile(l.view(SymArray), q, **kw) for l in lines]
+        if isinstance(q, (SR, SB)) or _np.ndim(q) == 0:
+            out = _np.empty(len(res), dtype=object)
+            for i, r_ in enumerate(res):
+                out[i] = r_
+            return out.view(SymArray)
+        raise HarnessError("symbolic quantile along an axis only for a scalar q")
     if axis is not None and a.ndim != 1:
         raise HarnessError("symbolic quantile only for 1-d arrays")
     a = _O(a.ravel())
